@@ -5,6 +5,7 @@
 #include "common.hpp"
 #include "c01.hpp"
 #include "c02.hpp"
+#include "c03.hpp"
 #include "c04.hpp"
 #include "c05.hpp"
 #include "c06.hpp"
